@@ -597,6 +597,60 @@ impl Memfs {
     }
 }
 
+#[cfg(rivia_verif)]
+impl Memfs {
+    /// Complete sorted copy of the internal state; does not panic on a poisoned lock and does not
+    /// pass through the guard hooks.
+    pub fn verif_snapshot(&self) -> crate::verif::VerifSnapshot {
+        let poisoned = self.0.is_poisoned();
+        let guard = match self.0.read() {
+            Ok(x) => x,
+            Err(e) => e.into_inner(),
+        };
+        let mut entries: Vec<crate::verif::VerifEntry> = guard
+            .entries
+            .iter()
+            .map(|(k, e)| crate::verif::VerifEntry {
+                key: k.clone(),
+                path: e.path.clone(),
+                alt: e.alt.clone(),
+                rel: e.rel.clone(),
+                dir: e.dir,
+                file: e.file,
+                link: e.link,
+                mode: e.mode,
+                uid: e.uid,
+                gid: e.gid,
+                follow: e.follow,
+                children: e.files.as_ref().map(|x| {
+                    let mut names: Vec<String> = x.iter().cloned().collect();
+                    names.sort();
+                    names
+                }),
+            })
+            .collect();
+        entries.sort_by(|x, y| x.key.cmp(&y.key));
+        let mut files: Vec<crate::verif::VerifFile> = guard
+            .files
+            .iter()
+            .map(|(k, f)| crate::verif::VerifFile {
+                key: k.clone(),
+                data: f.data.clone(),
+                pos: f.pos,
+                path: f.path.clone(),
+            })
+            .collect();
+        files.sort_by(|x, y| x.key.cmp(&y.key));
+        crate::verif::VerifSnapshot {
+            cwd: guard.cwd.clone(),
+            root: guard.root.clone(),
+            poisoned,
+            entries,
+            files,
+        }
+    }
+}
+
 impl fmt::Display for Memfs {
     fn fmt(&self, f: &mut fmt::Formatter) -> fmt::Result {
         let guard = self.0.read().unwrap();
